@@ -15,12 +15,30 @@ CFG = {'streams': [{'name': 'C05x',
                             'the model reaches a panic site, 7 = model out of fuel, 8 = the implementation panicked or took longer than 2 s, 9 = Ok '
                             'vs Err, 10 = parsed AST is not the intended one (not used in this stream), 11 = scan patterns differ, 12 = error '
                             'payload differs',
-              'model_only_codes': [3, 4, 12]}],
+              'model_only_codes': [3, 4, 12]},
+             {'name': 'C05r',
+              'n_quick': 150,
+              'n_thorough': 1500,
+              'what_fails': 'pretty rendering of a LOAD error (ParseError::display_pretty; for ParseError::Check also CheckError::display_pretty) of a '
+                            'text the loader rejects, against Model/LoadErrRender.v: 72 rendering panicked; 71 the real text does not contain '
+                            'path:row+1:col+1: of the location of the error (both judged on the real text alone); 73 the text differs from '
+                            'load_error_pretty (message line = Display of the error, then the excerpt at the location of the variant); 74 '
+                            "CheckError::display_pretty differs from the model's / from ParseError::Check's rendering",
+              'model_only_codes': [73, 74]}],
  'rule': 'accepted generated programs incl. ill-typed ones (0-2 injected runtime faults, graph nodes rendered to text allowed) x generated sources '
          'with 0-3 injected syntax faults (ERROR/MISSING nodes, non-ASCII text) x both modes; every run in its own thread with a 10 s watchdog and '
          'catch_unwind; errors are rendered plain and pretty; non-trivial = failing run or tree with syntax errors | parser part: see C07.py, stream '
          'C05p: hand-written edge cases for every ParseError variant plus valid texts with 1-3 token-/character-level mutations',
- 'explanation': 'Theorems: strict_exec_no_panic (Proofs/NoPanicStrict.v) and lazy_exec_no_panic (Proofs/NoPanicLazy.v): neither interpreter '
+ 'explanation': 'RENDERING OF LOAD ERRORS (Props/C05render.v): load_error_pretty = message line + the excerpt of C18 at the location of the '
+                'variant (every variant of ParseError and CheckError has one); it is a total function: when the row is not a line of the given text '
+                'the result is message, citation and <missing source> (load_error_pretty_missing_source), otherwise message, citation, numbered '
+                'line and caret line (load_error_pretty_present); the column is a repeat count clamped against the byte length of the line, never '
+                'a slice bound; every load error is cited as path:row+1:col+1: (load_error_pretty_cites; for the error values of the parser and '
+                'checker models: parse_model_error_pretty_cites, check_model_error_pretty_cites) and its line shown '
+                '(load_error_pretty_shows_line). Stream C05r compares the text character by character on rejected texts (malformed texts of C05p, '
+                'rule-breaking texts of C06, hand-written layouts: CRLF, non-ASCII before the error column, error at end of file / on a last line '
+                'without newline; 20% rendered with another text than the file: truncated, CRLF copy, unrelated). '
+                'Theorems: strict_exec_no_panic (Proofs/NoPanicStrict.v) and lazy_exec_no_panic (Proofs/NoPanicLazy.v): neither interpreter '
                 '(check_globals + execution of all stanzas, for the lazy one also the evaluation phase) ever reaches a Panic site, for every tree, '
                 'file, configuration, fuel, regex engine and cancellation budget, provided WellFormedFile (every scan statement, nested ones '
                 'included, has a regex-table entry for each arm; attribute-shorthand bodies contain no capture expression, which excludes the known '
@@ -61,6 +79,9 @@ CFG = {'streams': [{'name': 'C05x',
                  'only',
                  'tree-sitter queries, regex crate and stdlib as in C01'],
  'partial': ['the execution part is proved for both interpreters (strict_exec_no_panic, lazy_exec_no_panic) and the parser part by Props/C05parse.v '
-             '(parse_total); error RENDERING (Display / display_pretty never panic) is not modelled: it is explored by stream C05x only',
+             '(parse_total); error RENDERING: display_pretty of LOAD errors (ParseError / CheckError) is modelled (Model/LoadErrRender.v, '
+             'Props/C05render.v, stream C05r) and display_pretty of EXECUTION errors is modelled under C20 (Model/ErrRender.v, stream C20r): both '
+             'are total functions whose only partial step is the line lookup of the excerpt; the plain Display of errors (thiserror format '
+             'strings over opaque payload texts) is explored by streams C05x / C05p only',
              'real stack depth is not modelled: the model recursion is bounded by fuel; nesting up to 64 is exercised dynamically by stream C05p'],
- 'extra_props': ['C05parse']}
+ 'extra_props': ['C05parse', 'C05render']}
